@@ -19,7 +19,7 @@ func metaIDStr(p protocol.Packet) string {
 
 func runC19(r *Run) {
 	g := r.rng
-	r.st.Rule = "histories of constructor calls (NewRequest, MustNewRequest, NewResponse, MustNewResponse, NewPush, MustNewPush) with random option lists (WithRequestId, WithStatusCode, WithVerify, in any order and multiplicity) over 1-3 contexts, every resulting packet's type/cmd/id/status/verify compared with the model; G x M goroutines on one context must produce exactly the multiset {1..GM}, each goroutine seeing increasing ids, a second context unaffected (direct oracle). distinct = distinct request lines"
+	r.st.Rule = "histories of constructor calls (NewRequest, MustNewRequest, NewResponse, MustNewResponse, NewPush, MustNewPush) with random option lists (WithRequestId, WithStatusCode, WithVerify, in any order and multiplicity) over 1-3 contexts, every resulting packet's type/cmd/id/status/verify compared with the model; G x M goroutines on one context must produce exactly the multiset {1..GM}, each goroutine seeing increasing ids, a second context unaffected (direct oracle); the same with all goroutines spreading one shared option slice with spare capacity into the constructors (ids and status codes must stay their own). distinct = distinct request lines"
 	nh := 400
 	if r.thorough() {
 		nh = 8000
@@ -158,6 +158,68 @@ func runC19(r *Run) {
 			r.violate(Violation{What: bad, Case: fmt.Sprintf("%d goroutines x %d calls", G, M)})
 		}
 		r.st.Dist[fmt.Sprintf("concurrent.%dx%d", G, M)] = G * M
+	}
+	// the goroutines spread one shared option slice (with spare capacity) into their calls: the constructors may read it,
+	// never write to it - a stamped id or status code written into the caller's array would reach another goroutine's packet
+	for round := 0; round < 3; round++ {
+		const G, M = 8, 2500
+		ctx := protocol.NewContext(context.Background(), protocol.ClientSide)
+		shared := make([]protocol.PacketOption, 1, 8)
+		shared[0] = protocol.WithVerify(1, []byte("0123456789abcdef"))
+		ids := make([][]uint32, G)
+		wrongStatus := make([]int, G)
+		var wg sync.WaitGroup
+		start := make(chan struct{})
+		for w := 0; w < G; w++ {
+			wg.Add(1)
+			go func(w int) {
+				defer wg.Done()
+				<-start
+				for i := 0; i < M; i++ {
+					switch i % 3 {
+					case 0:
+						p, _ := protocol.NewRequest(ctx, 9, nil, shared...)
+						ids[w] = append(ids[w], p.Metadata.RequestId)
+					case 1:
+						p := protocol.MustNewRequest(ctx, 9, nil, shared...)
+						ids[w] = append(ids[w], p.Metadata.RequestId)
+					default:
+						p, _ := protocol.NewResponse(ctx, 9, uint8(10+w), nil, shared...)
+						if p.Metadata.StatusCode != uint8(10+w) {
+							wrongStatus[w]++
+						}
+					}
+				}
+			}(w)
+		}
+		close(start)
+		wg.Wait()
+		var all []uint32
+		for w := range ids {
+			all = append(all, ids[w]...)
+		}
+		sort.Slice(all, func(i, j int) bool { return all[i] < all[j] })
+		bad := ""
+		for i, id := range all {
+			if id != uint32(i+1) {
+				bad = fmt.Sprintf("ids handed out are not exactly {1..%d}: position %d of the sorted ids holds %d", len(all), i, id)
+				break
+			}
+		}
+		for w, n := range wrongStatus {
+			if n > 0 && bad == "" {
+				bad = fmt.Sprintf("%d responses built by goroutine %d carry another goroutine's status code", n, w)
+			}
+		}
+		if len(shared) != 1 {
+			bad = "the caller's option slice was changed"
+		}
+		if bad != "" {
+			r.violate(Violation{What: bad, Case: fmt.Sprintf("%d goroutines x %d calls (NewRequest, MustNewRequest, NewResponse) on one context, all spreading one option slice of length 1 and capacity 8", G, M)})
+			break
+		}
+		r.st.Evaluations++
+		r.count("concurrent.shared-option-slice")
 	}
 	// a second handshake on the same context (same or other registered version) does not restart the id sequence
 	for _, v2 := range []uint8{1, 2, 7} {
